@@ -48,6 +48,7 @@ fn main() {
                 let c: vh::vmcase::VmCase = serde_json::from_value(case).expect("vm case");
                 vh::vmengine::replay(&c, &mut rep);
             }
+            "scen" => vh::scenengine::replay(&case, &mut rep),
             "codec" => vh::codec::replay(case.get("bytes").and_then(|b| b.as_str()).unwrap_or(""), &mut rep),
             "vm-bytes" => vh::codec::replay(case.get("bytes").and_then(|b| b.as_str()).unwrap_or(""), &mut rep),
             other => {
@@ -100,6 +101,7 @@ fn main() {
         "vm" => vh::vmengine::run(&a, &mut rep),
         "codec" => vh::codec::run(&a, &mut rep),
         "formats" => vh::formats::run(&a, &mut rep),
+        "scen" => vh::scenengine::run(&a, &mut rep),
         _ => usage(),
     }
     rep.finish(t0);
